@@ -440,10 +440,19 @@ fn parse_fault(s: &str) -> (Option<Fault>, Option<Fault>) {
     (it.next(), it.next())
 }
 
+thread_local! {
+    static OPS_OVERRIDE: std::cell::Cell<(usize, usize)> = const { std::cell::Cell::new((0, 0)) };
+}
+
 pub fn history_for(mode: &str, gen: &str, seed: u64, idx: u64) -> Option<History> {
     match gen {
         "random" => {
-            let p = Profile::for_mode(mode);
+            let mut p = Profile::for_mode(mode);
+            let (lo, hi) = OPS_OVERRIDE.with(|o| o.get());
+            if hi > 0 {
+                p.min_ops = lo.min(hi);
+                p.max_ops = hi;
+            }
             let mut rng = Rng::derive(seed, idx);
             let mut g = Gen { rng: &mut rng, p: &p };
             let mut h = g.history();
@@ -491,6 +500,7 @@ pub fn main(args: &Args) -> i32 {
     let props: HashSet<String> = args.str("--props", &mode.replace("diff", "")).split(',').map(|s| s.to_string()).collect();
     let verbose = args.flag("--verbose");
     let only = args.get("--only").and_then(|s| s.parse::<u64>().ok());
+    OPS_OVERRIDE.with(|o| o.set((args.usize("--min-ops", 0), args.usize("--max-ops", 0))));
     // replay of a witness found in a shard: re-run that shard up to the witness (state such as the byte threshold
     // carries over from one history to the next, so the prefix is part of the witness)
     let upto = args.get("--upto").and_then(|s| s.parse::<u64>().ok());
@@ -509,10 +519,32 @@ pub fn main(args: &Args) -> i32 {
         base_args.push("--props".into());
         base_args.push(args.str("--props", ""));
     }
+    for k in ["--min-ops", "--max-ops"] {
+        if let Some(v) = args.get(k) {
+            base_args.push(k.into());
+            base_args.push(v.to_string());
+        }
+    }
+    for k in ["--no-state-hash", "--no-buffer-walk"] {
+        if args.flag(k) {
+            base_args.push(k.into());
+        }
+    }
     let mut sh = Shard { cfg: RunCfg { mode: mode.clone(), props, verbose, leak_check: alloc_mode != "off" }, rep: Report::new(), base_args, stop: false, mode_props_seen: 0 };
     sh.rep.set_add("features", feature_string());
     sh.rep.set_add("profile", if cfg!(debug_assertions) { "debug" } else { "release" });
 
+    if gen == "policy" {
+        let rounds = args.u64("--rounds", 20);
+        let steps = args.u64("--steps", 400);
+        let mut ba = sh.base_args.clone();
+        ba.extend(["--gen".to_string(), "policy".to_string()]);
+        let props = sh.cfg.props.clone();
+        crate::policy::run(&mut sh.rep, seed.wrapping_add(shard), rounds, steps, &props, &ba);
+        emit_stats(&mut sh.rep);
+        sh.rep.emit();
+        return 0;
+    }
     let total = if gen == "directed" { crate::directed::count() as u64 } else { count };
     let indices: Vec<u64> = match only {
         Some(i) => vec![i],
